@@ -37,8 +37,9 @@ def subpixel_pcc(
     product = f0 * f1.conj()
     power = _abs2(backend.ifftn(product))
     _max_shifts = np.asarray(max_shifts, dtype=np.float32)
-    # integer peaks whose refinement window (+-0.75 pixel) reaches the permitted range
-    _int_shifts = np.floor(_max_shifts + 0.75).astype(np.int32)
+    # integer peaks whose refinement window (-0.75 to +0.70 pixel) reaches the permitted
+    # range on both sides
+    _int_shifts = np.floor(_max_shifts + 0.70 + 5e-5).astype(np.int32)
     power = crop_by_max_shifts(power, _int_shifts, _int_shifts, backend)
 
     maxima = backend.unravel_index(backend.argmax(power), power.shape)
